@@ -332,3 +332,132 @@ Proof.
   - apply str_eqb_eq in E. subst k. apply get_uri_inl in Hu as [_ Hu]. rewrite (Hu _ H2). apply assoc_aset_same.
   - rewrite assoc_aset_other; auto. intro Heq. subst. rewrite str_eqb_refl in E. discriminate.
 Qed.
+
+(* ================================================================ _do_request_uri *)
+Definition db_keys (st : state) : list pystr := List.map fst (par_db st).
+Definition db_incl (st' st : state) : Prop := forall x, In x (par_db st') -> In x (par_db st).
+
+Lemma db_incl_keys st' st u : db_incl st' st -> In u (db_keys st') -> In u (db_keys st).
+Proof.
+  unfold db_keys. intros H Hin. apply in_map_iff in Hin as [[u' e] [E Hin]]. cbn in E. subst u'.
+  apply H in Hin. apply (in_map fst) in Hin. exact Hin.
+Qed.
+Lemma store_ok_incl g st' st : db_incl st' st -> store_ok g st -> store_ok g st'.
+Proof. intros H Hs u e Hin. eapply Hs. apply H. exact Hin. Qed.
+
+Ltac dru_cases H :=
+  unfold do_request_uri in H;
+  repeat match type of H with
+  | context [match ?x with _ => _ end] => destruct x eqn:?
+  | context [if ?b then _ else _] => destruct b eqn:?
+  end; inversion H; subst; clear H.
+
+Lemma dru_frame g d st r cid st' o via :
+  do_request_uri g d st r cid = (st', o, via) ->
+  now st' = now st /\ db_incl st' st /\ (NoDup (db_keys st) -> NoDup (db_keys st')).
+Proof.
+  intro H. dru_cases H; unfold db_incl, db_keys; cbn; repeat split; auto;
+    try (intros x Hx; eapply in_adel; eauto); try (intro Hn; now apply nodup_adel).
+Qed.
+
+Lemma dru_via g d st r cid st' o u :
+  do_request_uri g d st r cid = (st', o, Some u) ->
+  exists e, In (u, e) (par_db st) /\ (now st <= e_exp e)%Z /\ o = Acc (e_req e)
+            /\ assoc k_request_uri (r_params r) = Some (PS_ u)
+            /\ (NoDup (db_keys st) -> ~ In u (db_keys st')).
+Proof.
+  intro H. dru_cases H.
+  match goal with H : assoc _ (par_db st) = Some ?e |- _ => exists e; pose proof (assoc_In' _ _ _ H) end.
+  repeat split; auto.
+  - match goal with H : (_ <? _)%Z = false |- _ => apply Z.ltb_ge in H; exact H end.
+  - unfold db_keys. cbn. intro Hn. now apply adel_removes.
+Qed.
+
+Lemma dru_req_ok g d st r cid st' r' via :
+  do_request_uri g d st r cid = (st', Acc r', via) -> store_ok g st -> req_ok g r -> req_ok g r'.
+Proof.
+  intros H Hs Hr. dru_cases H; auto.
+  - match goal with H : assoc _ (par_db st) = Some ?e |- _ => apply assoc_In' in H; eapply Hs; eauto end.
+  - eapply merged_ok; eauto.
+Qed.
+
+(* ================================================================ the hook loop *)
+Lemma par_request_uri_acc r r' : par_request_uri r = Acc r' -> r' = r.
+Proof.
+  unfold par_request_uri. destruct (assoc k_request_uri (r_params r)) as [[[|c s]|[|c l]]|]; intro H; inversion H; auto.
+Qed.
+
+Lemma rh_frame g d cid : forall hs st r via st' o via',
+  run_hooks g d hs st r cid via = (st', o, via') ->
+  now st' = now st /\ db_incl st' st /\ (NoDup (db_keys st) -> NoDup (db_keys st')).
+Proof.
+  induction hs as [|h rest IH]; intros st r via st' o via' H; cbn in H.
+  - inversion H; subst. repeat split; auto. intros x Hx; exact Hx.
+  - destruct h.
+    + destruct (do_request_uri g d st r cid) as [[st1 o1] v1] eqn:E.
+      apply dru_frame in E as [E1 [E2 E3]].
+      destruct o1; try (inversion H; subst; repeat split; auto).
+      apply IH in H as [H1 [H2 H3]]. repeat split; [congruence| |auto].
+      intros x Hx. apply E2, H2, Hx.
+    + destruct (par_request_uri r); try (inversion H; subst; repeat split; auto; intros x Hx; exact Hx).
+      apply IH in H. exact H.
+    + destruct (post_parse g r cid); try (inversion H; subst; repeat split; auto; intros x Hx; exact Hx).
+      apply IH in H. exact H.
+    + inversion H; subst. repeat split; auto. intros x Hx; exact Hx.
+Qed.
+
+Lemma rh_req_ok g d cid : forall hs st r via st' r' via',
+  run_hooks g d hs st r cid via = (st', Acc r', via') -> store_ok g st -> req_ok g r -> req_ok g r'.
+Proof.
+  induction hs as [|h rest IH]; intros st r via st' r' via' H Hs Hr; cbn in H.
+  - inversion H; subst. exact Hr.
+  - destruct h.
+    + destruct (do_request_uri g d st r cid) as [[st1 o1] v1] eqn:E.
+      destruct o1; try discriminate.
+      pose proof (dru_req_ok _ _ _ _ _ _ _ _ E Hs Hr) as Hr1.
+      apply dru_frame in E as [_ [E2 _]].
+      eapply IH; eauto. eapply store_ok_incl; eauto.
+    + destruct (par_request_uri r) eqn:E; try discriminate.
+      apply par_request_uri_acc in E. subst. eapply IH; eauto.
+    + destruct (post_parse g r cid) eqn:E; try discriminate.
+      eapply IH; eauto. eapply post_parse_req_ok; eauto.
+    + discriminate.
+Qed.
+
+Lemma rh_via g d cid : forall hs st r via st' o u,
+  run_hooks g d hs st r cid via = (st', o, Some u) ->
+  via = Some u \/
+  exists e, In (u, e) (par_db st) /\ (now st <= e_exp e)%Z /\ (NoDup (db_keys st) -> ~ In u (db_keys st')).
+Proof.
+  induction hs as [|h rest IH]; intros st r via st' o u H; cbn in H.
+  - inversion H; subst. now left.
+  - destruct h.
+    + destruct (do_request_uri g d st r cid) as [[st1 o1] v1] eqn:E.
+      destruct o1; try discriminate.
+      pose proof (dru_frame _ _ _ _ _ _ _ _ E) as [F1 [F2 F3]].
+      pose proof (rh_frame _ _ _ _ _ _ _ _ _ _ H) as [G1 [G2 G3]].
+      apply IH in H. destruct H as [H|[e [H1 [H2 H3]]]].
+      * destruct v1 as [u1|]; [|now left]. inversion H; subst u1.
+        apply dru_via in E as [e [E1 [E2 [_ [_ E5]]]]]. right. exists e. repeat split; auto.
+        intros Hn Hin. apply (E5 Hn). eapply db_incl_keys; eauto.
+      * right. exists e. repeat split; [apply F2; exact H1|rewrite <- F1; exact H2|].
+        intros Hn. apply H3. now apply F3.
+    + destruct (par_request_uri r) eqn:E; try discriminate. eapply IH; eauto.
+    + destruct (post_parse g r cid) eqn:E; try discriminate. eapply IH; eauto.
+    + discriminate.
+Qed.
+
+Lemma rh_last g d cid : forall pre st r via st' r' via',
+  run_hooks g d (pre ++ [HPostParse]) st r cid via = (st', Acc r', via') ->
+  exists st0 r0 via0, run_hooks g d pre st r cid via = (st0, Acc r0, via0) /\ post_parse g r0 cid = Acc r' /\ st' = st0.
+Proof.
+  induction pre as [|h rest IH]; intros st r via st' r' via' H.
+  - cbn in H. destruct (post_parse g r cid) eqn:E; try discriminate. inversion H; subst.
+    exists st', r, via'. cbn. auto.
+  - cbn in H. cbn [run_hooks]. destruct h.
+    + destruct (do_request_uri g d st r cid) as [[st1 o1] v1] eqn:E. destruct o1; try discriminate.
+      apply IH in H. exact H.
+    + destruct (par_request_uri r) eqn:E; try discriminate. apply IH in H. exact H.
+    + destruct (post_parse g r cid) eqn:E; try discriminate. apply IH in H. exact H.
+    + discriminate.
+Qed.
